@@ -116,7 +116,9 @@ def build_file(path, variant, seed, scratch):
                     layout)
         vl = h5py.string_dtype()
         logs.create_dataset("log-vlen", data=np.array(
-            ["variable length µ line", "x" * 130], dtype=object), dtype=vl)
+            ["variable length µ line", "x" * 130,
+             # more bytes than characters, longer than 100 bytes
+             "µ°" * 35 + " 23.5 °C [end]"], dtype=object), dtype=vl)
         logs.create_dataset("log-vlen-chunked", data=np.array(
             ["a", "bb"], dtype=object), dtype=vl, chunks=(1,),
             maxshape=(None,))
